@@ -501,7 +501,47 @@ class Exec:
                 break
             arr = arr.arg(0)
             steps += 1
+        if z3.is_quantifier(arr) and arr.is_lambda() and arr.num_vars() == 1:
+            # loop / call havoc of the form  \o. If(o >= alloc0 or ..., fresh[o], before[o]):
+            # apply it, and for an object reached from the entry heap take the `before` side
+            return self._resolve_havoc(z3.substitute_vars(arr.body(), idx), idx, name, 0)
         return z3.Select(arr, idx)
+
+    def _resolve_havoc(self, t, idx, name: str, depth: int):
+        if depth > 12 or not (z3.is_app(t) and t.decl().kind() == z3.Z3_OP_ITE):
+            if z3.is_app(t) and t.decl().kind() == z3.Z3_OP_SELECT and t.arg(1).eq(idx):
+                # the `before` side is itself a read of an older map at the same object
+                a = t.arg(0)
+                steps = 0
+                while z3.is_app(a) and a.decl().kind() == z3.Z3_OP_STORE and steps < 40:
+                    w = a.arg(1)
+                    if w.eq(idx):
+                        return a.arg(2)
+                    if not self.distinct_ids(w, idx):
+                        return z3.Select(a, idx)
+                    a = a.arg(0)
+                    steps += 1
+                if z3.is_quantifier(a) and a.is_lambda() and a.num_vars() == 1:
+                    return self._resolve_havoc(z3.substitute_vars(a.body(), idx), idx, name, depth + 1)
+                return z3.Select(a, idx)
+            return t
+        c, x, y = t.arg(0), t.arg(1), t.arg(2)
+        if self._cond_false_for_old(c, idx):
+            return self._resolve_havoc(y, idx, name, depth + 1)
+        return t
+
+    def _cond_false_for_old(self, c, idx) -> bool:
+        """c is a disjunction of `idx >= <allocation pointer>` atoms and idx denotes an
+        object reached from the entry heap (below every allocation pointer)."""
+        if not is_old(idx):
+            return False
+        atoms = list(c.children()) if z3.is_or(c) else [c]
+        for a in atoms:
+            if z3.is_false(a):
+                continue
+            if not (z3.is_app(a) and a.decl().kind() == z3.Z3_OP_GE and a.arg(0).eq(idx) and self._is_fresh_id(a.arg(1))):
+                return False
+        return True
 
     def distinct_ids(self, a, b) -> bool:
         key = (a.get_id(), b.get_id(), len(self.pc))
@@ -1863,6 +1903,11 @@ class Exec:
             vt.append(vs.ty)
             self.dict_set(d, ks, vs)
         d.ty = T.dict_of(T.union(*kt) if kt else T.ANY, T.union(*vt) if vt else T.ANY)
+        if len(node.keys) == 1:
+            # key_index (position of a key in the key order): the only key of a one-entry display is at 0
+            sq = self.seq(d)
+            self.assume(S.key_index(sq, z3.simplify(sq[0])) == 0)
+            self.assume(S.key_index(sq, self.eval(node.keys[0]).t) == 0) if isinstance(node.keys[0], (ast.Name, ast.Constant)) else None
         return d
 
     def ev_Lambda(self, node: ast.Lambda) -> SV:
